@@ -73,6 +73,9 @@ type smRig struct {
 	resetSent   map[int64]int64 // final size of the first RESET_STREAM, -1 if none
 	resetCalled map[int64]bool
 	inflight    map[int64][]smSentFrame // pnum -> STREAM frames
+	stale       map[int64]bool          // the pipe was released while bytes were parked in s.inbuf
+	inHighRec   map[int64]int64         // like inHigh / inFinal, but only frames the stream recorded
+	inFinalRec  map[int64]int64         // (frames arriving after CloseRead / RESET_STREAM are discarded unseen)
 }
 
 // smByteIn / smByteOut: the two byte sequences W (peer -> us, us -> peer) of stream id.
@@ -99,7 +102,8 @@ func smNewRig(cfg [7]int64, prop int) *smRig {
 		inData: map[int64]int64{}, inFinal: map[int64]int64{}, inHigh: map[int64]int64{}, inResetSeen: map[int64]bool{},
 		sawEOF: map[int64]bool{}, written: map[int64]int64{}, peerMSD: map[int64]int64{}, peerMaxData: cfg[3],
 		advMSD: map[int64]int64{}, advMaxData: conf.maxConnReadBufferSize(), sentHigh: map[int64]int64{},
-		resetSent: map[int64]int64{}, resetCalled: map[int64]bool{}, inflight: map[int64][]smSentFrame{}}
+		resetSent: map[int64]int64{}, resetCalled: map[int64]bool{}, inflight: map[int64][]smSentFrame{},
+		stale: map[int64]bool{}, inHighRec: map[int64]int64{}, inFinalRec: map[int64]int64{}}
 }
 
 func (r *smRig) pump() {
@@ -159,6 +163,7 @@ func (r *smRig) open(id int64) bool {
 	r.streams[id] = s
 	r.ids = append(r.ids, id)
 	r.inFinal[id] = -1
+	r.inFinalRec[id] = -1
 	r.resetSent[id] = -1
 	r.peerMSD[id] = s.outwin
 	r.advMSD[id] = s.inwin
@@ -394,8 +399,13 @@ func smStep(rp **smRig, op string, o smOut, prop int) string {
 		}
 		pay := smEncode(func(w *packetWriter) { w.appendResetStreamFrame(s.id, code, final) })
 		pre := r.preRecv(s)
+		parked := len(s.inbuf) > s.inbufoff
 		n := r.c.handleResetStreamFrame(r.now, appDataSpace, pay)
 		res := afterFrame(s, n, len(pay))
+		if parked && !pre.reset && strings.HasPrefix(res, "ok") {
+			r.stale[int64(s.id)] = true
+			r.oracleDangling(o, s, op, true)
+		}
 		r.oracleRecv(o, s, pre, final, true, true, res, op)
 		return res
 	case t[0] == "rstop" && len(t) == 3:
@@ -472,7 +482,12 @@ func smStep(rp **smRig, op string, o smOut, prop int) string {
 		if s == nil {
 			return "bad-op"
 		}
+		parked := len(s.inbuf) > s.inbufoff
 		s.CloseRead()
+		if parked && !s.IsWriteOnly() {
+			r.stale[int64(s.id)] = true
+			r.oracleDangling(o, s, op, false)
+		}
 		return "ok" + tail(s)
 	case t[0] == "closewrite" && len(t) == 2:
 		s := stream(1)
@@ -557,9 +572,16 @@ func smStep(rp **smRig, op string, o smOut, prop int) string {
 func (r *smRig) doRead(o smOut, s *Stream, n int, op string) string {
 	id := int64(s.id)
 	buf := make([]byte, n)
+	fast := len(s.inbuf) > s.inbufoff
 	k, err := s.Read(buf)
+	if !fast {
+		r.stale[id] = false
+	}
+	staleRead := fast && r.stale[id]
 	var res string
 	switch {
+	case err == nil && staleRead:
+		res = fmt.Sprintf("ok stale %d", k)
 	case err == nil:
 		res = "ok " + vu.Hex(buf[:k])
 	case err.Error() == "EOF":
@@ -575,7 +597,7 @@ func (r *smRig) doRead(o smOut, s *Stream, n int, op string) string {
 	}
 	// ---- oracle C19 / C32 (receive side)
 	if r.prop == 19 || r.prop == 32 {
-		for i := 0; i < k; i++ {
+		for i := 0; i < k && !staleRead; i++ {
 			if buf[i] != smByteIn(id, r.inData[id]+int64(i)) {
 				o.Fail("", fmt.Sprintf("%s: Read on stream %d returned byte %#x at stream offset %d, peer sent %#x", op, id, buf[i], r.inData[id]+int64(i), smByteIn(id, r.inData[id]+int64(i))))
 				break
@@ -590,9 +612,6 @@ func (r *smRig) doRead(o smOut, s *Stream, n int, op string) string {
 			if r.inResetSeen[id] {
 				o.Fail("", fmt.Sprintf("%s: Read on stream %d returned EOF after RESET_STREAM was received", op, id))
 			}
-		}
-		if r.inResetSeen[id] && (strings.HasPrefix(res, "ok") && k > 0 && false) {
-			// data parked in the fast-path buffer before the reset may still be returned
 		}
 		if k > 0 && r.inData[id] > r.inHigh[id] {
 			o.Fail("", fmt.Sprintf("%s: Read on stream %d returned %d bytes, peer sent only %d", op, id, r.inData[id], r.inHigh[id]))
@@ -613,48 +632,54 @@ func (r *smRig) preRecv(s *Stream) smPre {
 }
 
 // oracleRecv states the receive-side halves of C20 and C32 on one STREAM/RESET_STREAM frame.
+//
+// Two views of the history are kept: the literal one (every frame the peer sent) and the
+// recorded one (frames that arrived while the stream was neither read-closed nor reset; later
+// frames are discarded by handleData before any bookkeeping).  A disagreement with the
+// recorded view is an unexpected failure; a disagreement with the literal view only is the
+// known leniency of the code as it is, reported under a narrow signature.
 func (r *smRig) oracleRecv(o smOut, s *Stream, pre smPre, end int64, fin, isReset bool, res, op string) {
 	id := int64(s.id)
 	gotFlow := res == "err flow"
 	gotFinal := res == "err finalsize"
-	// what the property says, from the frames seen so far
-	total := int64(0)
-	for _, sid := range r.ids {
-		h := r.inHigh[sid]
-		if sid == id && end > h {
-			h = end
+	blind := pre.inclosed || pre.reset
+	sum := func(high map[int64]int64, add bool) int64 {
+		total := int64(0)
+		for _, sid := range r.ids {
+			h := high[sid]
+			if sid == id && add && end > h {
+				h = end
+			}
+			total += h
 		}
-		total += h
+		return total
+	}
+	contra := func(final, high int64) bool {
+		return (final >= 0 && end > final) || (fin && final >= 0 && end != final) || (fin && end < high)
 	}
 	exceedStream := end > r.advMSD[id]
-	exceedConn := total > r.advMaxData
-	contra := (r.inFinal[id] >= 0 && end > r.inFinal[id]) ||
-		(fin && r.inFinal[id] >= 0 && end != r.inFinal[id]) ||
-		(fin && end < r.inHigh[id])
+	// a RESET_STREAM is accounted even on a read-closed stream (handleReset has no early return for inclosed)
+	recCounts := !blind || (isReset && !pre.reset)
+	totalLit := sum(r.inHigh, true)
+	totalRec := sum(r.inHighRec, recCounts)
+	contraLit := contra(r.inFinal[id], r.inHigh[id])
+	contraRec := contra(r.inFinalRec[id], r.inHighRec[id])
 	if r.prop == 20 {
 		switch {
-		case exceedStream && !gotFlow:
-			o.Fail("", fmt.Sprintf("%s: offset %d beyond advertised MAX_STREAM_DATA %d gave %q", op, end, r.advMSD[id], res))
-		case gotFlow && !exceedStream && !exceedConn:
-			o.Fail("", fmt.Sprintf("%s: FLOW_CONTROL_ERROR although stream end %d <= %d and conn total %d <= %d", op, end, r.advMSD[id], total, r.advMaxData))
-		case !exceedStream && exceedConn && !gotFlow && !gotFinal:
-			if pre.inclosed || pre.reset {
-				o.Fail("c20-closed-stream-bytes-not-counted", fmt.Sprintf("%s: peer total %d exceeds advertised MAX_DATA %d, no FLOW_CONTROL_ERROR (stream %d was read-closed/reset: handleData returns before handleStreamBytesReceived)", op, total, r.advMaxData, id))
-			} else {
-				o.Fail("", fmt.Sprintf("%s: peer total %d exceeds advertised MAX_DATA %d gave %q", op, total, r.advMaxData, res))
-			}
+		case exceedStream != gotFlow && !(gotFlow && totalRec > r.advMaxData) && !(exceedStream && gotFinal):
+			o.Fail("", fmt.Sprintf("%s: stream end %d vs advertised MAX_STREAM_DATA %d gave %q", op, end, r.advMSD[id], res))
+		case !exceedStream && !gotFinal && !contraRec && (totalRec > r.advMaxData) != gotFlow:
+			o.Fail("", fmt.Sprintf("%s: recorded peer total %d vs advertised MAX_DATA %d gave %q", op, totalRec, r.advMaxData, res))
+		case !exceedStream && !gotFlow && !gotFinal && totalLit > r.advMaxData:
+			o.Fail("c20-closed-stream-bytes-not-counted", fmt.Sprintf("%s: the peer's highest offsets sum to %d > advertised MAX_DATA %d, no FLOW_CONTROL_ERROR (bytes arriving on a read-closed stream are dropped by handleData before handleStreamBytesReceived)", op, totalLit, r.advMaxData))
 		}
 	}
-	if r.prop == 32 && !exceedStream {
+	if r.prop == 32 && !exceedStream && !gotFlow {
 		switch {
-		case contra && !gotFinal && !gotFlow:
-			if pre.inclosed && !pre.reset {
-				o.Fail("c32-final-size-not-tracked-after-closeread", fmt.Sprintf("%s: contradicts final size %d / highest offset %d of stream %d, got %q (stream was read-closed: frames are discarded before the final size is recorded)", op, r.inFinal[id], r.inHigh[id], id, res))
-			} else {
-				o.Fail("", fmt.Sprintf("%s: contradicts final size %d / highest offset %d of stream %d, got %q", op, r.inFinal[id], r.inHigh[id], id, res))
-			}
-		case gotFinal && !contra:
-			o.Fail("", fmt.Sprintf("%s: FINAL_SIZE_ERROR without a contradiction (final %d, highest %d)", op, r.inFinal[id], r.inHigh[id]))
+		case contraRec != gotFinal:
+			o.Fail("", fmt.Sprintf("%s: recorded final size %d / highest offset %d of stream %d, got %q", op, r.inFinalRec[id], r.inHighRec[id], id, res))
+		case contraLit && !gotFinal:
+			o.Fail("c32-final-size-not-tracked-after-closeread", fmt.Sprintf("%s: contradicts final size %d / highest offset %d the peer sent on stream %d, got %q (frames arriving after CloseRead are discarded before their offsets and FIN are recorded)", op, r.inFinal[id], r.inHigh[id], id, res))
 		}
 	}
 	if strings.HasPrefix(res, "ok") {
@@ -664,9 +689,39 @@ func (r *smRig) oracleRecv(o smOut, s *Stream, pre smPre, end int64, fin, isRese
 		if fin && r.inFinal[id] < 0 {
 			r.inFinal[id] = end
 		}
+		if recCounts {
+			if end > r.inHighRec[id] {
+				r.inHighRec[id] = end
+			}
+			if fin && r.inFinalRec[id] < 0 {
+				r.inFinalRec[id] = end
+			}
+		}
 		if isReset {
 			r.inResetSeen[id] = true
 		}
+	}
+}
+
+// oracleDangling: bytes parked in s.inbuf must stay backed by a chunk the stream still owns.
+func (r *smRig) oracleDangling(o smOut, s *Stream, op string, byReset bool) {
+	if len(s.inbuf) <= s.inbufoff {
+		return
+	}
+	ib := s.inbuf[:cap(s.inbuf)]
+	last := &ib[len(ib)-1]
+	for pb := s.in.head; pb != nil; pb = pb.next {
+		full := pb.b[:cap(pb.b)]
+		if len(full) > 0 && &full[len(full)-1] == last {
+			return // still owned
+		}
+	}
+	desc := fmt.Sprintf("%s: %d unread bytes of stream %d parked in Stream.inbuf alias a pipebuf that was recycled into pipebufPool; later fast-path Reads return whatever reuses the chunk", op, len(s.inbuf)-s.inbufoff, int64(s.id))
+	switch {
+	case r.prop == 19:
+		o.Fail("c19-inbuf-aliases-recycled-pipebuf", desc)
+	case r.prop == 32 && byReset:
+		o.Fail("c32-inbuf-aliases-recycled-pipebuf-after-reset", desc)
 	}
 }
 
